@@ -19,6 +19,7 @@ Correspondence
 """
 import ast
 import ctypes
+import enum
 import errno
 import itertools
 import os
@@ -512,10 +513,11 @@ class Sim:
         self.online = list(world.get("online", range(world["ncpu"])))
         self.nr_open = world["nr_open"]
         self.cap = world["cap"]
-        self.order = [p["pid"] for p in world["procs"]]
+        gone = set(world.get("gone_pids", ()))          # processes that have vanished: the kernel answers ESRCH
+        self.order = [p["pid"] for p in world["procs"] if p["pid"] not in gone]
         self.procs = {p["pid"]: {"nice": p["nice"], "ioprio": p["ioprio"], "affinity": list(p["affinity"]),
                                  "cpuset": list(p["cpuset"]), "rlimits": [list(x) for x in p["rlimits"]]}
-                      for p in world["procs"]}
+                      for p in world["procs"] if p["pid"] not in gone}
         self.log = []
         self.on_affinity = on_affinity
 
@@ -653,14 +655,19 @@ def canon_ok(ps, req, r):
                 return {"kind": "ok", "value": {"unexpected": repr(r)}}
             return {"kind": "ok", "value": r}
         if k == "ionice":
-            if not isinstance(r.ioclass, ps._psplatform.IOPriority):
+            # pionice(ioclass=<IOPriority member>, value=<int>)
+            if not (isinstance(r, tuple) and type(r).__name__ == "pionice" and r._fields == ("ioclass", "value")
+                    and type(r.ioclass) is ps._psplatform.IOPriority and type(r.value) is int
+                    and r[0] is r.ioclass and r[1] is r.value):
                 return {"kind": "ok", "value": {"unexpected": repr(r)}}
             return {"kind": "ok", "value": {"ioclass": int(r.ioclass), "data": int(r.value)}}
         if k == "cpu_affinity":
-            if not isinstance(r, list):
+            if type(r) is not list or any(type(x) is not int for x in r):
                 return {"kind": "ok", "value": {"unexpected": repr(r)}}
             return {"kind": "ok", "value": [int(x) for x in r]}
         if k == "rlimit":
+            if type(r) is not tuple or len(r) != 2 or any(type(x) is not int for x in r):
+                return {"kind": "ok", "value": {"unexpected": repr(r)}}
             s, h = r
             return {"kind": "ok", "value": [int(s), int(h)]}
     except Exception:
@@ -668,19 +675,97 @@ def canon_ok(ps, req, r):
     return {"kind": "ok", "value": {"unexpected": repr(r)}}
 
 
+# ---- the arguments as Python objects (Model/C18.lean §6) --------------------------------------------------------
+#
+# A request may say in which FORM each argument is handed over; the driver receives the same fields and runs the model
+# on the forms (`stepPy`). Scalars: "int" (default) | "enum" (a member of an IntEnum: for an I/O class 0..3 the real
+# `psutil.IOPRIO_CLASS_*` constant, otherwise a member of an IntEnum made here) | "bool". CPUs: "list" (default) |
+# "tuple" | "set" | "range" | "iterator". Limits: "tuple" (default) | "list" | "iterator". "kw": arguments by keyword.
+
+_ENUMS = {}
+
+
+def _enum_member(v):
+    if v not in _ENUMS:
+        _ENUMS[v] = enum.IntEnum("PsvConst%d" % len(_ENUMS), {"MEMBER": v}).MEMBER
+    return _ENUMS[v]
+
+
+def scalar_obj(ps, req, key):
+    v = req.get(key)
+    form = req.get(key + "_form", "int")
+    if v is None:
+        return None
+    if form == "int":
+        return v
+    if form == "bool":
+        return bool(v)
+    if form == "enum":
+        if key == "ioclass" and v in (0, 1, 2, 3):
+            const = getattr(ps, ("IOPRIO_CLASS_NONE", "IOPRIO_CLASS_RT", "IOPRIO_CLASS_BE", "IOPRIO_CLASS_IDLE")[v])
+            if int(const) != v or not isinstance(const, ps._psplatform.IOPriority):
+                raise AssertionError("psutil.IOPRIO_CLASS_* constant for %d is %r" % (v, const))
+            return const
+        return _enum_member(v)
+    raise ValueError(form)
+
+
+def cpus_obj(req):
+    l = list(req["cpus"])
+    form = req.get("cpus_form", "list")
+    if form == "list":
+        return l
+    if form == "tuple":
+        return tuple(l)
+    if form == "set":
+        return frozenset(l) if len(l) % 2 else set(l)
+    if form == "range":
+        if l != list(range(l[0], l[0] + len(l))) if l else False:
+            raise ValueError("not a range: %r" % l)
+        return range(l[0], l[0] + len(l)) if l else range(0)
+    if form == "iterator":
+        return (c for c in l) if len(l) % 2 else iter(l)
+    raise ValueError(form)
+
+
+def limits_obj(req):
+    l = list(req["limits"])
+    form = req.get("limits_form", "tuple")
+    if form == "tuple":
+        return tuple(l)
+    if form == "list":
+        return l
+    if form == "iterator":
+        return (x for x in l)
+    raise ValueError(form)
+
+
 def call_front(ps, proc, req):
     k = req["kind"]
+    kw = bool(req.get("kw"))
     if k == "nice":
-        return proc.nice() if req.get("value") is None else proc.nice(req["value"])
+        if req.get("value") is None:
+            return proc.nice()
+        v = scalar_obj(ps, req, "value")
+        return proc.nice(value=v) if kw else proc.nice(v)
     if k == "ionice":
-        return proc.ionice(req.get("ioclass"), req.get("value"))
+        c, v = scalar_obj(ps, req, "ioclass"), scalar_obj(ps, req, "value")
+        return proc.ionice(ioclass=c, value=v) if kw else proc.ionice(c, v)
     if k == "cpu_affinity":
-        return proc.cpu_affinity() if req.get("cpus") is None else proc.cpu_affinity(list(req["cpus"]))
+        if req.get("cpus") is None:
+            return proc.cpu_affinity()
+        return proc.cpu_affinity(cpus=cpus_obj(req)) if kw else proc.cpu_affinity(cpus_obj(req))
     if k == "rlimit":
+        r = scalar_obj(ps, req, "res")
         if req.get("limits") is None:
-            return proc.rlimit(req["res"])
-        return proc.rlimit(req["res"], tuple(req["limits"]))
+            return proc.rlimit(resource=r) if kw else proc.rlimit(r)
+        return proc.rlimit(resource=r, limits=limits_obj(req)) if kw else proc.rlimit(r, limits_obj(req))
     raise ValueError(req)
+
+
+def driver_req(req):
+    """The request as the driver wants it (without the harness-only fields)."""
+    return {k: v for k, v in req.items() if k != "kw"}
 
 
 # ------------------------------------------------------------------------------ call modes
@@ -694,7 +779,10 @@ ATTR_OF = {"nice": "nice", "ionice": "ionice", "cpu_affinity": "cpu_affinity"}
 
 
 def is_get(req):
-    return getter(req) == req
+    k = req["kind"]
+    return (k == "nice" and req.get("value") is None) or (k == "ionice" and req.get("ioclass") is None
+                                                          and req.get("value") is None) or \
+           (k == "cpu_affinity" and req.get("cpus") is None) or (k == "rlimit" and req.get("limits") is None)
 
 
 def warm_up(proc):
@@ -781,6 +869,8 @@ class SimImpl:
         with open("/proc/self/stat", "rb") as f:
             data = f.read()
         self.stat_tail = data[data.rfind(b")") + 1:]
+        self.stat_tail_z = b" Z" + self.stat_tail[2:]      # the same line for a zombie (state letter Z)
+        assert self.stat_tail[:1] == b" " and self.stat_tail[2:3] == b" ", self.stat_tail[:8]
         with open("/proc/self/status", "rb") as f:
             self.status_lines = f.read().split(b"\n")
         self.saved = []
@@ -828,9 +918,12 @@ class SimImpl:
             rows += ["intr 0", "ctxt 0", "btime 1700000000", "processes 1", "procs_running 1", "procs_blocked 0"]
             self.fp.write("stat", "\n".join(rows) + "\n")
             self.cur_ncpu = ids
+        zombies = set(world.get("zombie_pids", ()))
         for pid in self.sim.order:
-            if not os.path.exists(self.fp.path("%d/stat" % pid)):
-                self.fp.write("%d/stat" % pid, b"%d (psv-c18)" % pid + self.stat_tail)
+            want = b"%d (psv-c18)" % pid + (self.stat_tail_z if pid in zombies else self.stat_tail)
+            path = self.fp.path("%d/stat" % pid)
+            if not os.path.exists(path) or open(path, "rb").read() != want:
+                self.fp.write("%d/stat" % pid, want)
             self._write_status(pid)
         # PID 0 exists in this procfs only so that Process(0) can be built; it mirrors the caller
         if not os.path.exists(self.fp.path("0/stat")):
@@ -838,6 +931,15 @@ class SimImpl:
             self.fp.write("0/status", b"\n".join(self.status_lines))
         self.end_block()
         self.objs = {}
+        # a process that vanishes: the Process object is made while it exists, then the kernel forgets it (ESRCH)
+        # and /proc/<pid> disappears
+        for p in world["procs"]:
+            pid = p["pid"]
+            if pid in world.get("gone_pids", ()):
+                self.fp.write("%d/stat" % pid, b"%d (psv-c18)" % pid + self.stat_tail)
+                self.fp.write("%d/status" % pid, b"\n".join(self.status_lines))
+                self.objs[pid] = self.ps.Process(pid)
+                self.fp.remove("%d" % pid)
 
     def begin_block(self, pid):
         """Everything that follows on `pid` happens inside ONE `with p.oneshot():` whose caches are warm."""
@@ -1007,6 +1109,88 @@ def exhaustive_histories(tier):
         yield "pid0", mk_world(), [op(0, req), op(SELF_PID, getter(req)), op(T_PID, getter(req))]
 
 
+def F(req, **forms):
+    """`req` with argument forms / keyword calling added."""
+    return dict(req, **forms)
+
+
+GONE_MODES = ("plain", "oneshot", "oneshot-warm", "second")
+
+
+def extension_histories(rng):
+    """History dicts for: the ionice table with enum members / bools / keywords; the other calls with their arguments
+    in every form; a process that has vanished; a zombie."""
+    T = T_PID
+    # ---- ionice: {None,0,1,2,3,4,-1} x {None,-1,0,1,4,7,8} x (int | IOPRIO_CLASS_* member) x (int | bool | enum) x kw
+    for c in (None, 0, 1, 2, 3, 4, -1):
+        for v in (None, -1, 0, 1, 4, 7, 8):
+            for cf in (("int",) if c is None else ("int", "enum")):
+                vfs = ["int"] + (["bool"] if v in (0, 1) else []) + (["enum"] if v in (0, 4) else [])
+                for vf in vfs:
+                    for kw in (False, True):
+                        for i0 in (0, (2 << 13) | 4):
+                            forms = {"kw": kw}
+                            if cf != "int":
+                                forms["ioclass_form"] = cf
+                            if vf != "int":
+                                forms["value_form"] = vf
+                            yield with_modes(rng, {"world": mk_world(ioprio=i0), "mode": "sim", "tag": "ionice-table",
+                                                   "ops": [op(T, F(R_ionice(c, v), **forms)), op(T, R_ionice())]})
+    # ---- nice: bools and enum members are ints
+    for v, vf in ((1, "bool"), (0, "bool"), (5, "enum"), (-3, "enum"), (19, "enum"), (-20, "enum"), (0, "enum"),
+                  (20, "enum"), (2**31, "enum"), (7, "int")):
+        for kw in (False, True):
+            yield with_modes(rng, {"world": mk_world(nice=7), "mode": "sim", "tag": "forms",
+                                   "ops": [op(T, F(R_nice(v), value_form=vf, kw=kw)), op(T, R_nice()), op(S_PID, R_nice())]})
+    # ---- rlimit: resource as int / enum member / bool; limits as tuple / list / iterator; ints beyond 2^63
+    pairs = [(5, 10), (-1, -1), (5, -1), (10, 5), (2**63, -1), (5, 2**63), (2**64, 2**64), (-2**63 - 1, 0),
+             (2**63 - 1, 2**63 - 1), (2**64 - 1, 2**64 - 1), (1,), (1, 2, 3), ()]
+    for res, rf in ((0, "int"), (7, "enum"), (15, "enum"), (1, "bool"), (0, "bool"), (16, "enum"), (-1, "enum")):
+        for lim in pairs:
+            for lf in ("tuple", "list", "iterator"):
+                for kw in (False, True):
+                    yield with_modes(rng, {"world": mk_world(cap=(len(lim) + res) % 2 == 0), "mode": "sim", "tag": "forms",
+                                           "ops": [op(T, F(R_rl(res, lim), res_form=rf, limits_form=lf, kw=kw)),
+                                                   op(T, F(R_rl(res), res_form=rf, kw=kw)), op(S_PID, R_rl(3))]})
+    # ---- cpu_affinity: list / tuple / set / range / iterator (an exhausted iterator is NOT the empty list)
+    worlds = (dict(ncpu=4), dict(ncpu=6, cpuset=[0, 1, 4], affinity=[0, 1]), dict(ncpu=4, online=[0, 1, 3], affinity=[0]))
+    lists = ([], [0], [1], [0, 1], [1, 2], [0, 1, 2, 3], [2, 3], [3, 2], [1, 1, 0], [4, 5], [9], [-1], [0, -1], [2**63])
+    for kw_ in worlds:
+        for l in lists:
+            for cf in ("list", "tuple", "set", "range", "iterator"):
+                if cf == "range" and l != list(range(l[0], l[0] + len(l)) if l else []):
+                    continue
+                if cf == "set" and (len(set(l)) != len(l) or (-1 in l and len(l) > 1)):
+                    continue
+                for kw in (False, True):
+                    yield with_modes(rng, {"world": mk_world(**kw_), "mode": "sim", "tag": "forms",
+                                           "ops": [op(T, F(R_aff(l), cpus_form=cf, kw=kw)), op(T, R_aff()), op(S_PID, R_aff())]})
+    # ---- a process that has vanished: ESRCH -> NoSuchProcess for the get forms, the guard for the set forms
+    reqs = [R_nice(), R_nice(5), R_nice(2**31), R_ionice(), R_ionice(2, 3), R_ionice(2, 9), R_ionice(None, 3), R_aff(),
+            R_aff([0]), R_aff([-1]), R_aff([]), R_aff([9]), R_rl(3), R_rl(3, (1, 2)), R_rl(3, (1,)), R_rl(16),
+            R_rl(16, (1, 2)), F(R_aff([]), cpus_form="iterator"), F(R_rl(3, (1, 2)), limits_form="iterator"),
+            F(R_ionice(2, 1), ioclass_form="enum", kw=True)]
+    for req in reqs:
+        for mode in GONE_MODES:
+            w = mk_world()
+            w["gone_pids"] = [T]
+            yield {"world": w, "mode": "sim", "tag": "gone",
+                   "ops": [dict(op(T, req), mode=mode), dict(op(T, getter(req)), mode=mode), dict(op(S_PID, getter(req)), mode="plain")]}
+    # ---- a zombie (state Z in /proc/<pid>/stat): the kernel still answers; nothing here may depend on the state
+    reqs = [R_nice(), R_nice(5), R_ionice(), R_ionice(2, 3), R_ionice(2, 9), R_aff(), R_aff([1]), R_aff([9]), R_aff([]),
+            R_rl(7), R_rl(7, (1048577, 1048577)), R_rl(3, (1000, 99999)), R_rl(3, (5, 10)), R_rl(3, (1,)), R_rl(3, (10, 5))]
+    for req in reqs:
+        for mode in MODES + ("block",):
+            w = mk_world(cap=False)
+            w["zombie_pids"] = [T]
+            h = {"world": w, "mode": "sim", "tag": "zombie",
+                 "ops": [dict(op(T, req), mode=("plain" if mode == "block" else mode)), op(T, getter(req)), op(S_PID, getter(req))]}
+            if mode == "block":
+                h["block"] = T
+            yield h
+
+
+
 def gen_world(rng):
     ncpu = rng.choice([1, 2, 3, 4, 6, 8])
     online = stat = None
@@ -1117,7 +1301,7 @@ def mode_histories():
 
 def req_features(req, world):
     k = req["kind"]
-    f = [k + (":get" if getter(req) == req else ":set")]
+    f = [k + (":get" if is_get(req) else ":set")]
     if k == "ionice" and req.get("ioclass") is None and req.get("value") is not None:
         f.append("clause:value-without-class")
     if k == "cpu_affinity" and req.get("cpus") == []:
@@ -1166,17 +1350,26 @@ def judge(ctx, res, hist, i, impl, m, live=False):
     return True
 
 
+def driver_world(world):
+    """The reset line: the kernel does not know the vanished processes."""
+    gone = set(world.get("gone_pids", ()))
+    w = {k: v for k, v in world.items() if k not in ("gone_pids", "zombie_pids")}
+    w["procs"] = [p for p in world["procs"] if p["pid"] not in gone]
+    w["op"] = "reset"
+    return w
+
+
 def run_sim_histories(ctx, impl, hists):
     """hists: dicts {world, ops, mode:'sim', tag}. Returns rows per history: (impl, driver answer)."""
     lines = []
     for h in hists:
-        lines.append(dict(h["world"], op="reset"))
+        lines.append(driver_world(h["world"]))
         view = None
         if h.get("block") is not None:
             # the status file is cached when the block is entered: it keeps showing the mask of that moment
             view = [p for p in h["world"]["procs"] if p["pid"] == h["block"]][0]["affinity"]
         for o in h["ops"]:
-            ln = {"op": "call", "pid": o["pid"], "req": o["req"]}
+            ln = {"op": "call", "pid": o["pid"], "req": driver_req(o["req"])}
             if view is not None and o["pid"] == h["block"]:
                 ln["status_mask"] = list(view)
             lines.append(ln)
@@ -1215,6 +1408,9 @@ def check_sim(ctx, res, impl, hists):
             for i, (im, m) in enumerate(rows):
                 for f in req_features(h["ops"][i]["req"], h["world"]):
                     feats.add(f)
+                for fk, fv in h["ops"][i]["req"].items():
+                    if fk.endswith("_form") or (fk == "kw" and fv):
+                        res.count("form:%s=%s" % (fk[:-5], fv) if fk != "kw" else "form:keyword-arguments")
                 md = mode_for(h["ops"][i]["req"], h["ops"][i].get("mode", "plain"))
                 res.count("mode:" + md)
                 res.count("mode:%s:%s" % (md, "get" if is_get(h["ops"][i]["req"]) else "set"))
@@ -1223,6 +1419,10 @@ def check_sim(ctx, res, impl, hists):
                     break
             for f in feats:
                 res.count("feature:" + f)
+            if h["world"].get("gone_pids"):
+                res.count("world:the target process has vanished (ESRCH, no /proc/<pid>)")
+            if h["world"].get("zombie_pids"):
+                res.count("world:the target process is a zombie (state Z)")
             if h["world"].get("stat_ids") is not None:
                 res.count("world:virtualised /proc/stat (cpuN lines unrelated to the cpuset)")
             elif h["world"].get("online") is not None and h["world"]["online"] != list(range(h["world"]["ncpu"])):
@@ -1266,6 +1466,20 @@ class Live:
                              stderr=subprocess.DEVNULL, close_fds=True)
         self.children.append(p)
         return p.pid
+
+    def spawn_zombie(self):
+        """A child that has exited and is not reaped: state Z until close()."""
+        import time
+        p = subprocess.Popen(["true"], stdin=subprocess.DEVNULL, stdout=subprocess.DEVNULL, stderr=subprocess.DEVNULL,
+                             close_fds=True)
+        self.children.append(p)
+        for _ in range(200):
+            with open("/proc/%d/stat" % p.pid, "rb") as f:
+                data = f.read()
+            if data[data.rfind(b")") + 2:data.rfind(b")") + 3] == b"Z":
+                return p.pid
+            time.sleep(0.01)
+        return None
 
     def close(self):
         for p in self.children:
@@ -1342,6 +1556,12 @@ def live_ops(ctx, env, st0):
             op(T, R_aff([ncpu])), op(T, R_aff([ncpu + 7, 1023])), op(T, R_aff([1024])), op(T, R_aff([5000, 10000])),
             op(T, R_aff([-1])), op(T, R_aff([E[0], -1])), op(T, R_aff([-2])), op(T, R_aff([E[0], ncpu])),
             op(T, R_aff([E[-1], 5000])), op(T, R_aff()), op(T, R_aff([2**63])), op(T, R_aff([])), op(T, R_aff())]
+    # CPUs as tuple / set / range / iterator; an exhausted iterator is not the empty list
+    for l, cf in ((E[:2], "tuple"), (E[:3], "set"), (E[1:2], "iterator"), ([], "iterator"), ([], "tuple"), ([], "set"),
+                  ([], "range"), ([ncpu, ncpu + 1], "range"), (E[:1], "iterator")):
+        ops += [op(T, F(R_aff(l), cpus_form=cf, kw=(len(l) == 1))), op(T, R_aff())]
+    if E[:2] == [E[0], E[0] + 1]:
+        ops += [op(T, F(R_aff(E[:2]), cpus_form="range")), op(T, R_aff())]
     # ionice
     for c in [None] + list(range(0, 10)):
         if c in (1, 9) and not env["can_rt"]:
@@ -1349,6 +1569,12 @@ def live_ops(ctx, env, st0):
         for v in [None, -1, 0, 1, 4, 7, 8]:
             ops += [op(T, R_ionice(c, v)), op(T, R_ionice())]
     ops += [op(T, R_ionice(2**18 - 1, 0)), op(T, R_ionice(2**31, 0)), op(T, R_ionice(2, 2**31))]
+    # the arguments as Python objects: IOPRIO_CLASS_* constants, bools, keywords
+    for rq in (F(R_ionice(2, 5), ioclass_form="enum", kw=True), F(R_ionice(3), ioclass_form="enum"),
+               F(R_ionice(0, 0), ioclass_form="enum", value_form="bool"), F(R_ionice(2, 1), value_form="bool", kw=True),
+               F(R_ionice(3, 1), ioclass_form="enum", value_form="bool"), F(R_ionice(0, None), ioclass_form="bool"),
+               F(R_ionice(None, 5), kw=True), F(R_ionice(2, 4), ioclass_form="enum", value_form="enum")):
+        ops += [op(T, rq), op(T, R_ionice())]
     # rlimit: hard limits only go down (no CAP_SYS_RESOURCE in most sandboxes)
     for res in range(16):
         s, h = st0["rlimits"][res]
@@ -1364,6 +1590,15 @@ def live_ops(ctx, env, st0):
         for lim in cands:
             ops += [op(T, R_rl(res, lim)), op(T, R_rl(res))]
     ops += [op(T, R_rl(16, (1, 1))), op(T, R_rl(-1)), op(T, R_rl(7, (-1, -1))), op(T, R_rl(7))]
+    # limits as list / iterator, the resource as an enum member / bool, ints beyond 2^63
+    s6, h6 = st0["rlimits"][6]
+    top6 = min(h6, 2**40) // 8          # below what the loop above left: hard limits only go down
+    for rq in (F(R_rl(6, (top6 // 2, top6)), limits_form="list"), F(R_rl(6, (top6 // 3, top6)), limits_form="iterator"),
+               F(R_rl(6, (top6 // 4, top6)), res_form="enum", limits_form="list", kw=True), F(R_rl(6, (2**63, -1))),
+               F(R_rl(6, (5, 2**63)), limits_form="list"), F(R_rl(6, (2**64 - 1, 2**64 - 1))), F(R_rl(6, (-2**63 - 1, 0))),
+               F(R_rl(1, (top6, top6 // 2)), res_form="bool"), F(R_rl(6, (1, 2, 3)), limits_form="list"),
+               F(R_rl(6, ()), limits_form="list"), F(R_rl(6, (1,)), limits_form="iterator", kw=True)):
+        ops += [op(T, rq), op(T, F(R_rl(rq["res"]), res_form=rq.get("res_form", "int")))]
     # nice
     vals = list(range(-22, 23))
     if env["can_lower_nice"]:
@@ -1378,7 +1613,7 @@ def live_ops(ctx, env, st0):
     for v in vals:
         # the get after nice(-1) also once as a plain call: nothing may clear a stale errno before the C call
         ops += [op(T, R_nice(v)), dict(op(T, R_nice()), mode="plain") if v == -1 else op(T, R_nice())]
-    ops += [op(T, R_nice(2**31))]
+    ops += [op(T, R_nice(2**31)), op(T, F(R_nice(19), value_form="enum", kw=True)), op(T, R_nice())]
     return ops
 
 
@@ -1445,6 +1680,22 @@ def live_hole_ops(env, st):
     return ops
 
 
+def live_zombie_ops(env, st):
+    """What can be asked about a real zombie: the kernel still holds niceness, mask and limits (its I/O context is gone,
+    so the I/O priority is only read). A refused prlimit (EPERM) must come out as AccessDenied, not ZombieProcess."""
+    T, E = st["pid"], env["eligible"]
+    over = env["nr_open"] + 1
+    ops = [op(T, R_nice()), op(T, R_ionice()), op(T, R_aff()), op(T, R_rl(7)), op(T, R_rl(7, (over, over))), op(T, R_rl(7)),
+           op(T, R_rl(3, (1,))), op(T, R_rl(3)), op(T, R_nice(min(19, st["nice"] + 1))), op(T, R_nice()),
+           op(T, R_aff(E[:1])), op(T, R_aff()), op(T, R_aff([])), op(T, R_aff()), op(T, R_aff([env["ncpu"]])),
+           op(T, R_ionice(2, 9)), op(T, R_ionice(None, 1)), op(T, R_rl(16))]
+    if not env["cap"]:
+        s, h = st["rlimits"][3]
+        if h < INF - 1:
+            ops += [op(T, R_rl(3, (s, h + 1))), op(T, R_rl(3))]
+    return ops
+
+
 def run_live(ctx, res, live, env, T, S, ops, tag, block, stat_cpus=None):
     """One history on the live child: every call compared with the Lean model run on the state captured from the
     OS (and with the spec), in the call mode of the op; with `block`, inside one warm `oneshot()`."""
@@ -1456,7 +1707,7 @@ def run_live(ctx, res, live, env, T, S, ops, tag, block, stat_cpus=None):
     hist = {"world": world, "ops": ops, "mode": "live", "tag": tag}
     lines = [dict(world, op="reset")]
     for o in ops:
-        ln = {"op": "call", "pid": o["pid"], "req": o["req"], "errno": POISON_ERRNO}
+        ln = {"op": "call", "pid": o["pid"], "req": driver_req(o["req"]), "errno": POISON_ERRNO}
         if block:
             ln["status_mask"] = list(st0[0]["affinity"])
         lines.append(ln)
@@ -1493,6 +1744,9 @@ def run_live(ctx, res, live, env, T, S, ops, tag, block, stat_cpus=None):
             res.count("live:" + o["req"]["kind"])
             res.count("mode:live:" + mode_for(o["req"], mode))
             rq = o["req"]
+            for fk, fv in rq.items():
+                if (fk.endswith("_form") and fv not in ("int",)) or (fk == "kw" and fv):
+                    res.count("form:live:%s=%s" % (fk[:-5], fv) if fk != "kw" else "form:live:keyword-arguments")
             if rq["kind"] == "nice" and rq["value"] is None and im["procs"][0]["nice"] == -1:
                 res.count("live:nice-get-of--1-with-stale-errno")
             if rq["kind"] == "rlimit" and rq.get("limits") is not None and len(rq["limits"]) == 2:
@@ -1503,7 +1757,7 @@ def run_live(ctx, res, live, env, T, S, ops, tag, block, stat_cpus=None):
                     res.count("live:rlimit:RLIM_INFINITY")
             if rq["kind"] == "rlimit" and not 0 <= rq["res"] < 16:
                 res.count("live:rlimit:resource-out-of-range")
-            res.case((tag, i, o), nontrivial=getter(o["req"]) != o["req"])
+            res.case((tag, i, o), nontrivial=not is_get(o["req"]))
             done += 1
             if not judge(ctx, res, hist, i, im, m, live=True):
                 ok = False
@@ -1546,6 +1800,17 @@ def check_live(ctx, res):
             n, ok = run_live(ctx, res, live, env, T, S, live_block_ops(env, live.os_state(T, env["eligible"])),
                              "live-block", block=True)
             done += n
+        if ok:
+            # a real zombie: nothing in these calls may depend on the process state (the zombie test of rlimit() is
+            # for ENOSYS only, the one of wrap_exceptions for a process the kernel no longer finds)
+            Z = live.spawn_zombie()
+            if Z is None:
+                res.notes.append("live-zombie skipped: the child did not become a zombie")
+            else:
+                zops = live_zombie_ops(env, live.os_state(Z, env["eligible"]))
+                zops = [dict(o, mode=ctx.rng.choice(["plain", "oneshot", "oneshot-warm", "second", "iter"])) for o in zops]
+                n, ok = run_live(ctx, res, live, env, Z, S, zops, "live-zombie", block=False)
+                done += n
         if ok and len(env["eligible"]) >= 3 and env["eligible"][-1] == env["ncpu"] - 1:
             # the same child seen through a procfs whose /proc/stat lacks the cpuN line of a CPU that is not the last
             # one (seeded C18-2): len(per_cpu_times()) = ncpu - 1 while CPU ids go up to ncpu - 1
@@ -1609,6 +1874,10 @@ def correspond(ctx, res):
         for h in mode_histories():
             hists.append(h)
             n_modes += 1
+        n_ext = 0
+        for h in extension_histories(ctx.rng):
+            hists.append(h)
+            n_ext += 1
         for _ in range(ctx.n(1500, 40000)):
             w, o = gen_history(ctx.rng)
             hists.append(with_modes(ctx.rng, {"world": w, "ops": o, "mode": "sim", "tag": "random"}, p_block=0.25))
